@@ -239,6 +239,13 @@ HAND = [
 (set-info :exit-reason done)
 (exit)
 '''),
+    ('str-clash', '''(declare-const v String)
+(declare-const w String)
+(declare-const v_prefix String)
+(declare-const w_suffix String)
+(assert (str.contains v "ab"))
+(assert (str.contains w v))
+'''),
     ('comments', '''; leading
 (declare-const a Bool) ; trailing
 (assert (or a ; inside
